@@ -1,4 +1,4 @@
-import RTV.Lemmas.Num
+import RTV.Lemmas.Literal
 import RTV.Model.NumCfg
 /-!
 # C03 — numeric literals resolve to exactly the number written, in every culture
@@ -65,6 +65,79 @@ theorem comma_dot_cultures :
         tm == (if c.sep.nonStdVariant then c.sep.decSep else c.sep.nonDecSep)
       | none => true) = true := by
   decide
+
+
+/-! ### the general theorem: every literal shape, every regenerated configuration -/
+
+/-- the marks each regenerated configuration reads are ordinary punctuation, distinct from each other -/
+theorem cultures_marks_sane :
+    ∀ c ∈ cultures, ((parserMarks c.sep).2 < 48 ∧ (parserMarks c.sep).2 ≠ 45 ∧ (parserMarks c.sep).2 ≠ 32 ∧
+        (parserMarks c.sep).2 ≠ 47 ∧ (parserMarks c.sep).2 ≠ (parserMarks c.sep).1) ∧
+      ((parserMarks c.sep).1 < 48 ∧ (parserMarks c.sep).1 ≠ 45 ∧ (parserMarks c.sep).1 ≠ 47) := by
+  decide
+
+/-- the marks the parser reads are the marks `culture.py` writes (cultures with a long format) -/
+theorem marks_read_are_marks_written :
+    (cultures.all fun c => match c.longFormat with
+      | some (dm, tm) => parserMarks c.sep == (tm, dm)
+      | none => true) = true := by
+  decide
+
+/-- **C03 master statement for `_get_digital_value`.** For each of the ten regenerated configurations and every
+well-formed literal (plain, grouped, decimal, grouped decimal; with or without sign) of at most 15 digits written
+with that configuration's own marks, the result denotes exactly the number written: sign `l.neg`, and
+`coeff · 10^exp = numer / 10^scale` (stated cross-multiplied, `exp ≤ 0`). In en-us / es-es / es-mx / fr-fr a literal
+with exactly one grouping mark and no fraction must have standard grouping (`Grouped3`), because the code reads
+`12,34` or `0,234` as decimals there (multi-decimal-separator rule) — that guard is exact, see
+`single_mark_nonstandard_witness`. -/
+theorem digital_exact_literal (tab : DigitTab) (ht : tab.Ascii) (c : Culture) (hc : c ∈ cultures) (l : Literal)
+    (hw : l.WellFormed) (hstd : c.sep.multiDec = true → l.groups.length = 2 → l.frac = none → l.Grouped3)
+    (hb : l.numer < 10 ^ 15) :
+    ∃ r, digitalValue 15 tab c.sep (l.text (parserMarks c.sep).1 (parserMarks c.sep).2) 1 = .ok r ∧
+      r.neg = l.neg ∧ r.exp ≤ 0 ∧ r.coeff * 10 ^ l.scale = l.numer * 10 ^ (-r.exp).toNat :=
+  literal_exact tab ht c.sep l hw (cultures_marks_sane c hc).1 (cultures_marks_sane c hc).2 hstd hb
+
+theorem frac_of_shape (l : Literal) (h : l.shape = .decimal ∨ l.shape = .groupedDecimal) : l.frac ≠ none := by
+  intro hf
+  unfold Literal.shape at h
+  rw [hf] at h
+  rcases h with h | h <;> (split at h <;> simp_all)
+
+/-- grouped integers (`1,234,567`; `-1.234` in German …) -/
+theorem digital_exact_grouped (tab : DigitTab) (ht : tab.Ascii) (c : Culture) (hc : c ∈ cultures) (l : Literal)
+    (_hs : l.shape = .grouped) (hw : l.WellFormed) (hg : l.Grouped3) (hb : l.numer < 10 ^ 15) :
+    ∃ r, digitalValue 15 tab c.sep (l.text (parserMarks c.sep).1 (parserMarks c.sep).2) 1 = .ok r ∧
+      r.neg = l.neg ∧ r.exp ≤ 0 ∧ r.coeff * 10 ^ l.scale = l.numer * 10 ^ (-r.exp).toNat :=
+  digital_exact_literal tab ht c hc l hw (fun _ _ _ => hg) hb
+
+/-- decimals without grouping (`1234.5`, `-0,05`) -/
+theorem digital_exact_decimal (tab : DigitTab) (ht : tab.Ascii) (c : Culture) (hc : c ∈ cultures) (l : Literal)
+    (hs : l.shape = .decimal) (hw : l.WellFormed) (hb : l.numer < 10 ^ 15) :
+    ∃ r, digitalValue 15 tab c.sep (l.text (parserMarks c.sep).1 (parserMarks c.sep).2) 1 = .ok r ∧
+      r.neg = l.neg ∧ r.exp ≤ 0 ∧ r.coeff * 10 ^ l.scale = l.numer * 10 ^ (-r.exp).toNat :=
+  digital_exact_literal tab ht c hc l hw (fun _ _ hf => absurd hf (frac_of_shape l (Or.inl hs))) hb
+
+/-- grouped decimals (`1,234.5`, `-12.345.678,90`) -/
+theorem digital_exact_grouped_decimal (tab : DigitTab) (ht : tab.Ascii) (c : Culture) (hc : c ∈ cultures)
+    (l : Literal) (hs : l.shape = .groupedDecimal) (hw : l.WellFormed) (hb : l.numer < 10 ^ 15) :
+    ∃ r, digitalValue 15 tab c.sep (l.text (parserMarks c.sep).1 (parserMarks c.sep).2) 1 = .ok r ∧
+      r.neg = l.neg ∧ r.exp ≤ 0 ∧ r.coeff * 10 ^ l.scale = l.numer * 10 ^ (-r.exp).toNat :=
+  digital_exact_literal tab ht c hc l hw (fun _ _ hf => absurd hf (frac_of_shape l (Or.inr hs))) hb
+
+/-- the hypotheses are satisfiable: `-1,234.50` in English -/
+example : ∃ r, digitalValue 15 asciiDigits en.sep
+    ((⟨true, [[1], [2, 3, 4]], some [5, 0]⟩ : Literal).text 44 46) 1 = .ok r ∧ r.neg = true ∧ r.exp ≤ 0 ∧
+      r.coeff * 10 ^ 2 = 123450 * 10 ^ (-r.exp).toNat :=
+  digital_exact_grouped_decimal asciiDigits asciiDigits_ascii en (by unfold cultures; exact List.mem_cons_self) ⟨true, [[1], [2, 3, 4]], some [5, 0]⟩
+    (by decide) ⟨by decide, by decide, by decide⟩ (by decide)
+
+/-- The `Grouped3` guard of the single-mark case is exact: in the multi-decimal-separator cultures one mark followed
+by two digits, or a leading `0` group, is read as a decimal (`12,34` ↦ 12.34, `0,234` ↦ 0.234 in English). The
+extractor's integer format `\d{1,3}(,\d{3})+` never produces the first; the second is outside standard grouping. -/
+theorem single_mark_nonstandard_witness :
+    isOkDec (digitalValue 15 asciiDigits en.sep [49, 50, 44, 51, 52] 1) ⟨false, 123400000000000, -13⟩ = true ∧
+    isOkDec (digitalValue 15 asciiDigits en.sep [48, 44, 50, 51, 52] 1) ⟨false, 234000000000000, -15⟩ = true := by
+  decide +kernel
 
 /-- the literal shapes of a culture written with grouping mark `g` and decimal mark `d` (code points) -/
 def sampleLiterals (g d : Nat) : List (Str × Str) :=
